@@ -453,7 +453,9 @@ def _bounded_by_constants(lib, cm, body, op, depth=0, seen=None):
         acv = common.accessor_const(lib, body, op)
         if acv is not None:
             return True, [acv]
-        if f.get("name") in ("saturating_sub", "min", "checked_sub", "wrapping_sub") and tr.origin[2]["args"]:
+        # (not `wrapping_sub`: where the subtrahend is the larger one it wraps to a value near the type's maximum, which is
+        # no bound at all)
+        if f.get("name") in ("saturating_sub", "min", "checked_sub") and tr.origin[2]["args"]:
             if f["name"] == "min":
                 a = _bounded_by_constants(lib, cm, body, tr.origin[2]["args"][0], depth + 1, seen)
                 b_ = _bounded_by_constants(lib, cm, body, tr.origin[2]["args"][1], depth + 1, seen)
